@@ -159,6 +159,10 @@ class Ctx:
         cases = list(cases)
         if not cases:
             return {}
+        ids = [c.get("id") for c in cases]
+        if len(set(ids)) != len(ids):
+            dup = sorted(set(i for i in ids if ids.count(i) > 1))[:3] if len(ids) < 5000 else "?"
+            raise MachineryFailure("duplicate case ids handed to %s: %s" % (fn_name, dup))
         if chunksize is None:
             chunksize = max(1, min(200, len(cases) // (NCPU * 4) or 1))
         out = {}
